@@ -4,8 +4,9 @@ Model: PersistenceWF.tla.  Part 1 enumerates workflow SHAPES (every built-in ste
 command / processor / target option under both workflow classes, every ordered pair of step classes chained or side by
 side, every set of <= 2 token types) and says, per shape, which mutable fields two loads share in the code as it is
 (byref fields of rows served by @cached getters).  Part 2 explores all Save / Load (3 default contexts + builder) /
-MutateLoaded histories over the aliasing profile of a shape with an explicit heap: with the shallow copy of cachebox
-Separation, MutationIsolated and LoadReproduces fail (counterexamples kept), with deep-copying getters they hold.
+MutateLoaded histories over the aliasing profile of a shape with an explicit heap: with deep-copying cached getters (the
+code since fix 1d9dc38) Separation, MutationIsolated and LoadReproduces hold; with cachebox' default shallow copy (defect
+model, kept as a vacuity guard) TLC refutes them.
 Binding: every emitted shape is instantiated with concrete values (a fixed catalogue of scalar classes), saved, loaded
 through DefaultDatabaseLoadingContext twice and WorkflowBuilder (deep copy); each load is compared structurally with
 the original (own comparator), persistent ids are checked, an id() reachability scan over mutable containers checks
@@ -39,19 +40,19 @@ def _model(ctx):
     for inv in ctx.pick(["Separation"], ["Separation", "MutationIsolated", "LoadReproduces"]):
         v = ctx.tlc("Persistence", "MC_PersistenceWF", "asis.cfg", files={"asis.cfg": _cfg(False, "none", "Init", "Next", [inv], small=ctx.quick)},
                     timeout=1800, count=False, workers=1)
-        ctx.require(v.error == "invariant" and v.trace, "the as-is model does not break %s any more: model out of date" % inv)
+        ctx.require(v.error == "invariant" and v.trace, "the defect model (shallow-copying cached getters) does not break %s: vacuous property" % inv)
         cex[inv] = [dict(action=s["action"], **s["context"]) for s in v.trace[1:]]
         ctx.require("shared" in v.trace[0]["state"]["profile"], "counterexample without a shared field class")
     a = ctx.tlc("Persistence", "MC_PersistenceWF", "asis_ok.cfg", timeout=1800,
                 files={"asis_ok.cfg": _cfg(False, "none", "Init", "Next", ["TypeOK", "BuilderHasNoIds"])}) if not ctx.quick else None
     if a is not None:
-        ctx.require(a.ok, "as-is model breaks TypeOK/BuilderHasNoIds")
-    ctx.extra["asis_model_counterexamples"] = cex
+        ctx.require(a.ok, "shallow-copy defect model breaks TypeOK/BuilderHasNoIds")
+    ctx.extra["defect_model_counterexamples"] = cex       # DeepCopy = FALSE: the defect repaired by fix 1d9dc38
     return cex
 
 
 def _shapes(ctx):
-    g = ctx.tlc("Persistence", "MC_PersistenceWF", "gen.cfg", files={"gen.cfg": _cfg(False, "all", "GenInit", "GenNext")},
+    g = ctx.tlc("Persistence", "MC_PersistenceWF", "gen.cfg", files={"gen.cfg": _cfg(True, "all", "GenInit", "GenNext")},
                 workers=1, timeout=1800)
     ctx.require(g.ok, "shape generation failed: %s" % g.stdout[-800:])
     shapes = [x for x in g.printed_json() if isinstance(x, dict) and "shape" in x]
@@ -152,11 +153,11 @@ class Checker:
                          "%s: load %s shares the mutable object %s with a cached database row" % (label, n, p))
         predicted = set(item["shared"] or [])
         if observed == predicted:
-            ctx.count("shared_fields_as_predicted_by_asis_model")
-        elif observed < predicted or not observed:
-            ctx.count("asis_model_predicts_sharing_code_separates")
+            ctx.count("shared_fields_as_predicted_by_model")          # model of the code as it is: deep-copying getters, nothing shared
+        elif observed < predicted:
+            ctx.count("model_predicts_sharing_code_separates")
         else:
-            ctx.count("sharing_not_predicted_by_asis_model")
+            ctx.count("sharing_not_predicted_by_model")
             ctx.extra.setdefault("unpredicted_sharing", []).append({"shape": shape, "observed": sorted(observed), "predicted": sorted(predicted)})
         # ---- MutateLoaded(L1, everything) ; the other loads and the stored record must not change
         before = {n: (W.snapshot(loads[n]), [W.snapshot(t) for t in toks[n]]) for n in ("L2", "B")}
@@ -258,7 +259,7 @@ def run(ctx):
     if err is not None:
         raise err
     ctx.exhaustive = not ctx.quick
-    ctx.sample({"as_is_model_counterexamples": cex})
+    ctx.sample({"defect_model_counterexamples": cex})
     ctx.sample(sel[len(sel) // 3])
     ctx.sample(sel[-1])
     ctx.assumptions += [
